@@ -115,6 +115,12 @@ Act(D, s, c) ==
     [] OTHER -> same                                                                  \* no effect on what is held
 
 \* ----- wallets -------------------------------------------------------------------------------------------------------
+\* (The wallet may have been created by any route: from a master key, an extended key string, a passphrase, a private
+\* ACCOUNT key at the depth of the public master, a key path without hardened levels, a single key in any format, any
+\* mix of private and public co-signer keys.  What it hands out as public - public_master() of every account and
+\* witness type, wif(is_private=False), as_dict / as_json, keys(as_dict), repr / str of everything returned, and a
+\* watch-only wallet built from those exports - is a public view on every route, on the handle the history left and
+\* on a freshly opened one.)
 \* A wallet call yields ITEMS (one per key / transaction / exported object it shows); item facts: priv = the key(s) the
 \* item is about are private keys of this wallet, signed = the transaction was signed by this wallet.  A watch-only
 \* wallet (created from the public export) has nothing private: every call on it is a public view.
